@@ -317,27 +317,35 @@ def rule_result(r):
 
 
 def rule_precedence(r):
-    """load_model_info splits on '+' before '*' before '@'."""
+    """load_model_info splits on '+' before '*' before '@' (loosest-binding operator first)."""
     mod = pf.lib("core")
     fn = mod.func("load_model_info")
-    order = []
+    chain = []
     for st in fn.body:
         if isinstance(st, ast.If):
             cur = st
             while True:
-                t = cur.test
-                if isinstance(t, ast.Compare) and isinstance(t.ops[0], ast.In) and isinstance(t.left, ast.Constant):
-                    # the operation the branch builds
-                    txt = pf.unparse(ast.Module(body=cur.body, type_ignores=[]))
-                    order.append((t.left.value, txt, cur.lineno))
+                chain.append(cur)
                 if len(cur.orelse) == 1 and isinstance(cur.orelse[0], ast.If):
                     cur = cur.orelse[0]
                 else:
                     break
-    ops = [o for o, _, _ in order if o in "+*@"]
+            break
+    order = []
+    for br in chain:
+        consts = [n.value for n in ast.walk(br.test) if isinstance(n, ast.Constant) and n.value in ("+", "*", "@")]
+        if not consts:
+            continue
+        simple = isinstance(br.test, ast.Compare) and isinstance(br.test.ops[0], ast.In) and isinstance(br.test.left, ast.Constant) \
+            and pf.unparse(br.test.comparators[0]) == pf.positional_params(fn)[0]
+        txt = pf.unparse(ast.Module(body=br.body, type_ignores=[]))
+        order.append((consts[0], simple, txt, br.lineno, pf.unparse(br.test)))
+    ops = [o for o, _, _, _, _ in order]
     r.check(ops == ["+", "*", "@"], "sasmodels/core.py", "load_model_info", "split order %s" % ops, fn.lineno,
             "loosest-binding operator first: + then * then @")
-    for o, txt, ln in order:
+    for o, simple, txt, ln, test in order:
+        r.check(simple, "sasmodels/core.py", "load_model_info", "branch test `%s`" % test, ln,
+                "the operator test is the plain membership test, so the first branch taken is decided by precedence alone")
         if o == "+":
             r.check("split('+')" in txt and "operation='+'" in txt, "sasmodels/core.py", "load_model_info",
                     "'+' branch builds a '+' mixture", ln)
@@ -354,7 +362,7 @@ RULES = [
     ("R-C08-identity", 2, "each operator combines with its own operation", rule_identity),
     ("R-C08-layout", 20, "part slices agree with table construction order (linear forms)", rule_layout),
     ("R-C08-result", 2, "scale*total+background", rule_result),
-    ("R-C08-precedence", 4, "expression parser precedence", rule_precedence),
+    ("R-C08-precedence", 7, "expression parser precedence", rule_precedence),
 ]
 
 
